@@ -28,7 +28,7 @@ echo "$R suite_with_mutant=$SUITE demo_fails_with=$DW/3 demo_fails_without=$DN/3
 cd /verif
 cp evidence/$ID.json /tmp/wt/evid-$ID.json 2>/dev/null
 git -C /repo apply --whitespace=nowarn $P || { echo "$R cannot apply to /repo"; exit 2; }
-./vcheck.sh $ID $TIER > /tmp/wt/check-$ID-$K.out 2>&1; RC=$?
+timeout 900 ./vcheck.sh $ID $TIER > /tmp/wt/check-$ID-$K.out 2>&1; RC=$?
 git -C /repo checkout -- .
 cp /tmp/wt/evid-$ID.json evidence/$ID.json 2>/dev/null
 echo "$R check($TIER) exit=$RC $(grep -c '^VIOLATION' /tmp/wt/check-$ID-$K.out) violation lines; first: $(grep -A1 '^VIOLATION' /tmp/wt/check-$ID-$K.out | grep 'key=' | head -1 | cut -c1-220)"
